@@ -589,6 +589,13 @@ def run(tier, seed, only=None):
     # every statement kind in every block context leaves its observable effect in the firmware (nothing disappears)
     for oid, src in skeletons.ctx_family(tier):
         items.append(("accounted", "accounted/" + oid[4:], src))
+    # the stmt family too - except skeletons whose C01 obligation is a recorded finding with a semantic root cause (C
+    # arithmetic, folded len(), ...): those are value differences, not vanished statements, and are reported under C01
+    from ..common import load_findings
+    c01_known = {f.get("key") for f in load_findings() if f.get("property") == "C01" and f.get("status") == "known"}
+    for oid, src in skeletons.stmt_family(tier):
+        if oid not in c01_known:
+            items.append(("accounted", "accounted/" + oid, src))
     if only:
         items = [i for i in items if only in str(i[1])]
     results = run_obligations(items, _work)
